@@ -403,6 +403,15 @@ impl PersistBackend for FilePersist {
             return Ok(());
         }
 
+        // Take the shard map lock BEFORE the WAL append and keep it until the updates are
+        // in the shard's buffer (lock order shards -> wal, the same as flush). The WAL lock
+        // used to be released before the shard map lock was taken; a flush of the same
+        // shard running in that window wrote a batch without these updates and then
+        // rewrote the WAL without this shard's lines - including the ones just appended.
+        // The updates then lived only in the in-memory buffer, and a crash before the next
+        // flush lost an acknowledged write.
+        let mut shards = self.shards.write();
+
         // Handle WAL based on durability mode
         match self.config.durability_mode {
             DurabilityMode::Immediate => {
@@ -425,7 +434,6 @@ impl PersistBackend for FilePersist {
         crate::verif_hooks::sched_point("persist:append:after_wal");
         // Add to buffer
         let should_flush = {
-            let mut shards = self.shards.write();
             let state = shards
                 .entry(shard.to_string())
                 .or_insert_with(|| ShardState {
@@ -444,6 +452,7 @@ impl PersistBackend for FilePersist {
 
             state.buffer.len() >= self.config.buffer_size
         };
+        drop(shards);
 
         // Flush if buffer is full
         if should_flush {
